@@ -222,7 +222,7 @@ func ParseSliceHeader(nalu []byte, spsMap map[uint32]*SPS, ppsMap map[uint32]*PP
 					sh.NumLongTermSps = uint8(r.ReadExpGolomb())
 				}
 				sh.NumLongTermPics = r.ReadExpGolomb()
-				for i := uint(0); i < uint(sh.NumLongTermSps)+sh.NumLongTermPics; i++ {
+				for i := uint(0); i < uint(sh.NumLongTermSps)+sh.NumLongTermPics && r.AccError() == nil; i++ {
 					var lt LongTermRPS
 					if i < uint(sh.NumLongTermSps) {
 						// lt_idx_sps is inferred to be 0 when not present
